@@ -20,9 +20,12 @@ for mid, prop, path, old, new, only, expect in MUTANTS:
     subprocess.run("git -C /repo archive HEAD | tar -x -C " + tree, shell=True, check=True)
     f = os.path.join(tree, path)
     src = open(f).read()
-    if old not in src:
+    olds, news = ([old], [new]) if isinstance(old, str) else (list(old), list(new))     # several edits of one file: lists
+    if any(o_ not in src for o_ in olds):
         rows.append((mid, prop, "PATCH-FAIL", "")); print(mid, "PATCH-FAIL"); continue
-    open(f, "w").write(src.replace(old, new, 1))
+    for o_, n_ in zip(olds, news):
+        src = src.replace(o_, n_, 1)
+    open(f, "w").write(src)
     env = dict(os.environ, STATHAM_REPO=tree, VERIF_OUT=out)
     r = subprocess.run(["./check", prop, "--tier", "quick", "--only", only], env=env, capture_output=True, text=True)
     lines = [l for l in r.stdout.splitlines()]
